@@ -136,6 +136,15 @@ pub fn select_start(n: u64) -> u64 {
     g.rng.below(n)
 }
 
+/// First branch for `select!`: 0 when `biased;` was written, otherwise drawn from the PRNG.
+pub fn select_start_b(biased: bool, n: u64) -> u64 {
+    if biased {
+        0
+    } else {
+        select_start(n)
+    }
+}
+
 pub enum Sel1<A> {
     A(A),
 }
@@ -162,21 +171,171 @@ pub enum Sel5<A, B, C, D, E> {
     E(E),
 }
 
-/// `tokio::select!` for 1 to 5 branches with irrefutable patterns and block handlers, with or
-/// without `biased;`: same semantics (all futures created up front, polled from a random branch
-/// — branch 0 when biased —, the first ready one wins, the others are dropped; handlers run
-/// outside any closure so `?`, `break` and `continue` behave as written). The random start is
-/// drawn from the run's scheduler PRNG. Preconditions (`, if ..`) and `else` are not supported.
+/// `tokio::select!` for 1 to 5 branches with irrefutable patterns, with or without `biased;`,
+/// handlers written as blocks or as expressions followed by a comma: same semantics (all
+/// futures created up front, polled from a random branch — branch 0 when biased —, the first
+/// ready one wins, the others are dropped; handlers run outside any closure so `?`, `break`
+/// and `continue` behave as written). The random start is drawn from the run's scheduler PRNG.
+/// Preconditions (`, if ..`) and `else` are not supported.
 #[macro_export]
 macro_rules! sim_select {
-    ( biased; $p0:pat = $f0:expr => $h0:block $(,)? $p1:pat = $f1:expr => $h1:block $(,)? $p2:pat = $f2:expr => $h2:block $(,)? $p3:pat = $f3:expr => $h3:block $(,)? $p4:pat = $f4:expr => $h4:block $(,)? ) => {{
+    (biased; $($rest:tt)*) => { $crate::__sim_select_parse!{ @biased true; @acc []; $($rest)* } };
+    ($($rest:tt)*) => { $crate::__sim_select_parse!{ @biased false; @acc []; $($rest)* } };
+}
+
+#[doc(hidden)]
+#[macro_export]
+macro_rules! __sim_select_parse {
+    (@biased $b:tt; @acc [$($acc:tt)*]; $p:pat = $f:expr => $h:block , $($rest:tt)*) => {
+        $crate::__sim_select_parse!{ @biased $b; @acc [$($acc)* ($p, $f, $h)]; $($rest)* }
+    };
+    (@biased $b:tt; @acc [$($acc:tt)*]; $p:pat = $f:expr => $h:block $($rest:tt)*) => {
+        $crate::__sim_select_parse!{ @biased $b; @acc [$($acc)* ($p, $f, $h)]; $($rest)* }
+    };
+    (@biased $b:tt; @acc [$($acc:tt)*]; $p:pat = $f:expr => $h:expr , $($rest:tt)*) => {
+        $crate::__sim_select_parse!{ @biased $b; @acc [$($acc)* ($p, $f, { $h })]; $($rest)* }
+    };
+    (@biased $b:tt; @acc [$($acc:tt)*]; $p:pat = $f:expr => $h:expr) => {
+        $crate::__sim_select_parse!{ @biased $b; @acc [$($acc)* ($p, $f, { $h })]; }
+    };
+    (@biased $b:tt; @acc [($p0:pat, $f0:expr, $h0:block)]; ) => {{
+        let __out = {
+            let mut __f0 = ::std::pin::pin!($f0);
+            let __start = $crate::task::select_start_b($b, 1);
+            ::std::future::poll_fn(|__cx| {
+                for __i in 0..1u64 {
+                    match (__start + __i) % 1 {
+                        _ => {
+                            if let ::std::task::Poll::Ready(v) = ::std::future::Future::poll(__f0.as_mut(), __cx) {
+                                return ::std::task::Poll::Ready($crate::task::Sel1::A(v));
+                            }
+                        }
+                    }
+                }
+                ::std::task::Poll::Pending
+            })
+            .await
+        };
+        match __out {
+            $crate::task::Sel1::A($p0) => $h0,
+        }
+    }};
+    (@biased $b:tt; @acc [($p0:pat, $f0:expr, $h0:block) ($p1:pat, $f1:expr, $h1:block)]; ) => {{
+        let __out = {
+            let mut __f0 = ::std::pin::pin!($f0);
+            let mut __f1 = ::std::pin::pin!($f1);
+            let __start = $crate::task::select_start_b($b, 2);
+            ::std::future::poll_fn(|__cx| {
+                for __i in 0..2u64 {
+                    match (__start + __i) % 2 {
+                        0 => {
+                            if let ::std::task::Poll::Ready(v) = ::std::future::Future::poll(__f0.as_mut(), __cx) {
+                                return ::std::task::Poll::Ready($crate::task::Sel2::A(v));
+                            }
+                        }
+                        _ => {
+                            if let ::std::task::Poll::Ready(v) = ::std::future::Future::poll(__f1.as_mut(), __cx) {
+                                return ::std::task::Poll::Ready($crate::task::Sel2::B(v));
+                            }
+                        }
+                    }
+                }
+                ::std::task::Poll::Pending
+            })
+            .await
+        };
+        match __out {
+            $crate::task::Sel2::A($p0) => $h0,
+            $crate::task::Sel2::B($p1) => $h1,
+        }
+    }};
+    (@biased $b:tt; @acc [($p0:pat, $f0:expr, $h0:block) ($p1:pat, $f1:expr, $h1:block) ($p2:pat, $f2:expr, $h2:block)]; ) => {{
+        let __out = {
+            let mut __f0 = ::std::pin::pin!($f0);
+            let mut __f1 = ::std::pin::pin!($f1);
+            let mut __f2 = ::std::pin::pin!($f2);
+            let __start = $crate::task::select_start_b($b, 3);
+            ::std::future::poll_fn(|__cx| {
+                for __i in 0..3u64 {
+                    match (__start + __i) % 3 {
+                        0 => {
+                            if let ::std::task::Poll::Ready(v) = ::std::future::Future::poll(__f0.as_mut(), __cx) {
+                                return ::std::task::Poll::Ready($crate::task::Sel3::A(v));
+                            }
+                        }
+                        1 => {
+                            if let ::std::task::Poll::Ready(v) = ::std::future::Future::poll(__f1.as_mut(), __cx) {
+                                return ::std::task::Poll::Ready($crate::task::Sel3::B(v));
+                            }
+                        }
+                        _ => {
+                            if let ::std::task::Poll::Ready(v) = ::std::future::Future::poll(__f2.as_mut(), __cx) {
+                                return ::std::task::Poll::Ready($crate::task::Sel3::C(v));
+                            }
+                        }
+                    }
+                }
+                ::std::task::Poll::Pending
+            })
+            .await
+        };
+        match __out {
+            $crate::task::Sel3::A($p0) => $h0,
+            $crate::task::Sel3::B($p1) => $h1,
+            $crate::task::Sel3::C($p2) => $h2,
+        }
+    }};
+    (@biased $b:tt; @acc [($p0:pat, $f0:expr, $h0:block) ($p1:pat, $f1:expr, $h1:block) ($p2:pat, $f2:expr, $h2:block) ($p3:pat, $f3:expr, $h3:block)]; ) => {{
+        let __out = {
+            let mut __f0 = ::std::pin::pin!($f0);
+            let mut __f1 = ::std::pin::pin!($f1);
+            let mut __f2 = ::std::pin::pin!($f2);
+            let mut __f3 = ::std::pin::pin!($f3);
+            let __start = $crate::task::select_start_b($b, 4);
+            ::std::future::poll_fn(|__cx| {
+                for __i in 0..4u64 {
+                    match (__start + __i) % 4 {
+                        0 => {
+                            if let ::std::task::Poll::Ready(v) = ::std::future::Future::poll(__f0.as_mut(), __cx) {
+                                return ::std::task::Poll::Ready($crate::task::Sel4::A(v));
+                            }
+                        }
+                        1 => {
+                            if let ::std::task::Poll::Ready(v) = ::std::future::Future::poll(__f1.as_mut(), __cx) {
+                                return ::std::task::Poll::Ready($crate::task::Sel4::B(v));
+                            }
+                        }
+                        2 => {
+                            if let ::std::task::Poll::Ready(v) = ::std::future::Future::poll(__f2.as_mut(), __cx) {
+                                return ::std::task::Poll::Ready($crate::task::Sel4::C(v));
+                            }
+                        }
+                        _ => {
+                            if let ::std::task::Poll::Ready(v) = ::std::future::Future::poll(__f3.as_mut(), __cx) {
+                                return ::std::task::Poll::Ready($crate::task::Sel4::D(v));
+                            }
+                        }
+                    }
+                }
+                ::std::task::Poll::Pending
+            })
+            .await
+        };
+        match __out {
+            $crate::task::Sel4::A($p0) => $h0,
+            $crate::task::Sel4::B($p1) => $h1,
+            $crate::task::Sel4::C($p2) => $h2,
+            $crate::task::Sel4::D($p3) => $h3,
+        }
+    }};
+    (@biased $b:tt; @acc [($p0:pat, $f0:expr, $h0:block) ($p1:pat, $f1:expr, $h1:block) ($p2:pat, $f2:expr, $h2:block) ($p3:pat, $f3:expr, $h3:block) ($p4:pat, $f4:expr, $h4:block)]; ) => {{
         let __out = {
             let mut __f0 = ::std::pin::pin!($f0);
             let mut __f1 = ::std::pin::pin!($f1);
             let mut __f2 = ::std::pin::pin!($f2);
             let mut __f3 = ::std::pin::pin!($f3);
             let mut __f4 = ::std::pin::pin!($f4);
-            let __start = 0u64;
+            let __start = $crate::task::select_start_b($b, 5);
             ::std::future::poll_fn(|__cx| {
                 for __i in 0..5u64 {
                     match (__start + __i) % 5 {
@@ -217,316 +376,6 @@ macro_rules! sim_select {
             $crate::task::Sel5::C($p2) => $h2,
             $crate::task::Sel5::D($p3) => $h3,
             $crate::task::Sel5::E($p4) => $h4,
-        }
-    }};
-    ( biased; $p0:pat = $f0:expr => $h0:block $(,)? $p1:pat = $f1:expr => $h1:block $(,)? $p2:pat = $f2:expr => $h2:block $(,)? $p3:pat = $f3:expr => $h3:block $(,)? ) => {{
-        let __out = {
-            let mut __f0 = ::std::pin::pin!($f0);
-            let mut __f1 = ::std::pin::pin!($f1);
-            let mut __f2 = ::std::pin::pin!($f2);
-            let mut __f3 = ::std::pin::pin!($f3);
-            let __start = 0u64;
-            ::std::future::poll_fn(|__cx| {
-                for __i in 0..4u64 {
-                    match (__start + __i) % 4 {
-                        0 => {
-                            if let ::std::task::Poll::Ready(v) = ::std::future::Future::poll(__f0.as_mut(), __cx) {
-                                return ::std::task::Poll::Ready($crate::task::Sel4::A(v));
-                            }
-                        }
-                        1 => {
-                            if let ::std::task::Poll::Ready(v) = ::std::future::Future::poll(__f1.as_mut(), __cx) {
-                                return ::std::task::Poll::Ready($crate::task::Sel4::B(v));
-                            }
-                        }
-                        2 => {
-                            if let ::std::task::Poll::Ready(v) = ::std::future::Future::poll(__f2.as_mut(), __cx) {
-                                return ::std::task::Poll::Ready($crate::task::Sel4::C(v));
-                            }
-                        }
-                        _ => {
-                            if let ::std::task::Poll::Ready(v) = ::std::future::Future::poll(__f3.as_mut(), __cx) {
-                                return ::std::task::Poll::Ready($crate::task::Sel4::D(v));
-                            }
-                        }
-                    }
-                }
-                ::std::task::Poll::Pending
-            })
-            .await
-        };
-        match __out {
-            $crate::task::Sel4::A($p0) => $h0,
-            $crate::task::Sel4::B($p1) => $h1,
-            $crate::task::Sel4::C($p2) => $h2,
-            $crate::task::Sel4::D($p3) => $h3,
-        }
-    }};
-    ( biased; $p0:pat = $f0:expr => $h0:block $(,)? $p1:pat = $f1:expr => $h1:block $(,)? $p2:pat = $f2:expr => $h2:block $(,)? ) => {{
-        let __out = {
-            let mut __f0 = ::std::pin::pin!($f0);
-            let mut __f1 = ::std::pin::pin!($f1);
-            let mut __f2 = ::std::pin::pin!($f2);
-            let __start = 0u64;
-            ::std::future::poll_fn(|__cx| {
-                for __i in 0..3u64 {
-                    match (__start + __i) % 3 {
-                        0 => {
-                            if let ::std::task::Poll::Ready(v) = ::std::future::Future::poll(__f0.as_mut(), __cx) {
-                                return ::std::task::Poll::Ready($crate::task::Sel3::A(v));
-                            }
-                        }
-                        1 => {
-                            if let ::std::task::Poll::Ready(v) = ::std::future::Future::poll(__f1.as_mut(), __cx) {
-                                return ::std::task::Poll::Ready($crate::task::Sel3::B(v));
-                            }
-                        }
-                        _ => {
-                            if let ::std::task::Poll::Ready(v) = ::std::future::Future::poll(__f2.as_mut(), __cx) {
-                                return ::std::task::Poll::Ready($crate::task::Sel3::C(v));
-                            }
-                        }
-                    }
-                }
-                ::std::task::Poll::Pending
-            })
-            .await
-        };
-        match __out {
-            $crate::task::Sel3::A($p0) => $h0,
-            $crate::task::Sel3::B($p1) => $h1,
-            $crate::task::Sel3::C($p2) => $h2,
-        }
-    }};
-    ( biased; $p0:pat = $f0:expr => $h0:block $(,)? $p1:pat = $f1:expr => $h1:block $(,)? ) => {{
-        let __out = {
-            let mut __f0 = ::std::pin::pin!($f0);
-            let mut __f1 = ::std::pin::pin!($f1);
-            let __start = 0u64;
-            ::std::future::poll_fn(|__cx| {
-                for __i in 0..2u64 {
-                    match (__start + __i) % 2 {
-                        0 => {
-                            if let ::std::task::Poll::Ready(v) = ::std::future::Future::poll(__f0.as_mut(), __cx) {
-                                return ::std::task::Poll::Ready($crate::task::Sel2::A(v));
-                            }
-                        }
-                        _ => {
-                            if let ::std::task::Poll::Ready(v) = ::std::future::Future::poll(__f1.as_mut(), __cx) {
-                                return ::std::task::Poll::Ready($crate::task::Sel2::B(v));
-                            }
-                        }
-                    }
-                }
-                ::std::task::Poll::Pending
-            })
-            .await
-        };
-        match __out {
-            $crate::task::Sel2::A($p0) => $h0,
-            $crate::task::Sel2::B($p1) => $h1,
-        }
-    }};
-    ( biased; $p0:pat = $f0:expr => $h0:block $(,)? ) => {{
-        let __out = {
-            let mut __f0 = ::std::pin::pin!($f0);
-            let __start = 0u64;
-            ::std::future::poll_fn(|__cx| {
-                for __i in 0..1u64 {
-                    match (__start + __i) % 1 {
-                        _ => {
-                            if let ::std::task::Poll::Ready(v) = ::std::future::Future::poll(__f0.as_mut(), __cx) {
-                                return ::std::task::Poll::Ready($crate::task::Sel1::A(v));
-                            }
-                        }
-                    }
-                }
-                ::std::task::Poll::Pending
-            })
-            .await
-        };
-        match __out {
-            $crate::task::Sel1::A($p0) => $h0,
-        }
-    }};
-    ( $p0:pat = $f0:expr => $h0:block $(,)? $p1:pat = $f1:expr => $h1:block $(,)? $p2:pat = $f2:expr => $h2:block $(,)? $p3:pat = $f3:expr => $h3:block $(,)? $p4:pat = $f4:expr => $h4:block $(,)? ) => {{
-        let __out = {
-            let mut __f0 = ::std::pin::pin!($f0);
-            let mut __f1 = ::std::pin::pin!($f1);
-            let mut __f2 = ::std::pin::pin!($f2);
-            let mut __f3 = ::std::pin::pin!($f3);
-            let mut __f4 = ::std::pin::pin!($f4);
-            let __start = $crate::task::select_start(5);
-            ::std::future::poll_fn(|__cx| {
-                for __i in 0..5u64 {
-                    match (__start + __i) % 5 {
-                        0 => {
-                            if let ::std::task::Poll::Ready(v) = ::std::future::Future::poll(__f0.as_mut(), __cx) {
-                                return ::std::task::Poll::Ready($crate::task::Sel5::A(v));
-                            }
-                        }
-                        1 => {
-                            if let ::std::task::Poll::Ready(v) = ::std::future::Future::poll(__f1.as_mut(), __cx) {
-                                return ::std::task::Poll::Ready($crate::task::Sel5::B(v));
-                            }
-                        }
-                        2 => {
-                            if let ::std::task::Poll::Ready(v) = ::std::future::Future::poll(__f2.as_mut(), __cx) {
-                                return ::std::task::Poll::Ready($crate::task::Sel5::C(v));
-                            }
-                        }
-                        3 => {
-                            if let ::std::task::Poll::Ready(v) = ::std::future::Future::poll(__f3.as_mut(), __cx) {
-                                return ::std::task::Poll::Ready($crate::task::Sel5::D(v));
-                            }
-                        }
-                        _ => {
-                            if let ::std::task::Poll::Ready(v) = ::std::future::Future::poll(__f4.as_mut(), __cx) {
-                                return ::std::task::Poll::Ready($crate::task::Sel5::E(v));
-                            }
-                        }
-                    }
-                }
-                ::std::task::Poll::Pending
-            })
-            .await
-        };
-        match __out {
-            $crate::task::Sel5::A($p0) => $h0,
-            $crate::task::Sel5::B($p1) => $h1,
-            $crate::task::Sel5::C($p2) => $h2,
-            $crate::task::Sel5::D($p3) => $h3,
-            $crate::task::Sel5::E($p4) => $h4,
-        }
-    }};
-    ( $p0:pat = $f0:expr => $h0:block $(,)? $p1:pat = $f1:expr => $h1:block $(,)? $p2:pat = $f2:expr => $h2:block $(,)? $p3:pat = $f3:expr => $h3:block $(,)? ) => {{
-        let __out = {
-            let mut __f0 = ::std::pin::pin!($f0);
-            let mut __f1 = ::std::pin::pin!($f1);
-            let mut __f2 = ::std::pin::pin!($f2);
-            let mut __f3 = ::std::pin::pin!($f3);
-            let __start = $crate::task::select_start(4);
-            ::std::future::poll_fn(|__cx| {
-                for __i in 0..4u64 {
-                    match (__start + __i) % 4 {
-                        0 => {
-                            if let ::std::task::Poll::Ready(v) = ::std::future::Future::poll(__f0.as_mut(), __cx) {
-                                return ::std::task::Poll::Ready($crate::task::Sel4::A(v));
-                            }
-                        }
-                        1 => {
-                            if let ::std::task::Poll::Ready(v) = ::std::future::Future::poll(__f1.as_mut(), __cx) {
-                                return ::std::task::Poll::Ready($crate::task::Sel4::B(v));
-                            }
-                        }
-                        2 => {
-                            if let ::std::task::Poll::Ready(v) = ::std::future::Future::poll(__f2.as_mut(), __cx) {
-                                return ::std::task::Poll::Ready($crate::task::Sel4::C(v));
-                            }
-                        }
-                        _ => {
-                            if let ::std::task::Poll::Ready(v) = ::std::future::Future::poll(__f3.as_mut(), __cx) {
-                                return ::std::task::Poll::Ready($crate::task::Sel4::D(v));
-                            }
-                        }
-                    }
-                }
-                ::std::task::Poll::Pending
-            })
-            .await
-        };
-        match __out {
-            $crate::task::Sel4::A($p0) => $h0,
-            $crate::task::Sel4::B($p1) => $h1,
-            $crate::task::Sel4::C($p2) => $h2,
-            $crate::task::Sel4::D($p3) => $h3,
-        }
-    }};
-    ( $p0:pat = $f0:expr => $h0:block $(,)? $p1:pat = $f1:expr => $h1:block $(,)? $p2:pat = $f2:expr => $h2:block $(,)? ) => {{
-        let __out = {
-            let mut __f0 = ::std::pin::pin!($f0);
-            let mut __f1 = ::std::pin::pin!($f1);
-            let mut __f2 = ::std::pin::pin!($f2);
-            let __start = $crate::task::select_start(3);
-            ::std::future::poll_fn(|__cx| {
-                for __i in 0..3u64 {
-                    match (__start + __i) % 3 {
-                        0 => {
-                            if let ::std::task::Poll::Ready(v) = ::std::future::Future::poll(__f0.as_mut(), __cx) {
-                                return ::std::task::Poll::Ready($crate::task::Sel3::A(v));
-                            }
-                        }
-                        1 => {
-                            if let ::std::task::Poll::Ready(v) = ::std::future::Future::poll(__f1.as_mut(), __cx) {
-                                return ::std::task::Poll::Ready($crate::task::Sel3::B(v));
-                            }
-                        }
-                        _ => {
-                            if let ::std::task::Poll::Ready(v) = ::std::future::Future::poll(__f2.as_mut(), __cx) {
-                                return ::std::task::Poll::Ready($crate::task::Sel3::C(v));
-                            }
-                        }
-                    }
-                }
-                ::std::task::Poll::Pending
-            })
-            .await
-        };
-        match __out {
-            $crate::task::Sel3::A($p0) => $h0,
-            $crate::task::Sel3::B($p1) => $h1,
-            $crate::task::Sel3::C($p2) => $h2,
-        }
-    }};
-    ( $p0:pat = $f0:expr => $h0:block $(,)? $p1:pat = $f1:expr => $h1:block $(,)? ) => {{
-        let __out = {
-            let mut __f0 = ::std::pin::pin!($f0);
-            let mut __f1 = ::std::pin::pin!($f1);
-            let __start = $crate::task::select_start(2);
-            ::std::future::poll_fn(|__cx| {
-                for __i in 0..2u64 {
-                    match (__start + __i) % 2 {
-                        0 => {
-                            if let ::std::task::Poll::Ready(v) = ::std::future::Future::poll(__f0.as_mut(), __cx) {
-                                return ::std::task::Poll::Ready($crate::task::Sel2::A(v));
-                            }
-                        }
-                        _ => {
-                            if let ::std::task::Poll::Ready(v) = ::std::future::Future::poll(__f1.as_mut(), __cx) {
-                                return ::std::task::Poll::Ready($crate::task::Sel2::B(v));
-                            }
-                        }
-                    }
-                }
-                ::std::task::Poll::Pending
-            })
-            .await
-        };
-        match __out {
-            $crate::task::Sel2::A($p0) => $h0,
-            $crate::task::Sel2::B($p1) => $h1,
-        }
-    }};
-    ( $p0:pat = $f0:expr => $h0:block $(,)? ) => {{
-        let __out = {
-            let mut __f0 = ::std::pin::pin!($f0);
-            let __start = $crate::task::select_start(1);
-            ::std::future::poll_fn(|__cx| {
-                for __i in 0..1u64 {
-                    match (__start + __i) % 1 {
-                        _ => {
-                            if let ::std::task::Poll::Ready(v) = ::std::future::Future::poll(__f0.as_mut(), __cx) {
-                                return ::std::task::Poll::Ready($crate::task::Sel1::A(v));
-                            }
-                        }
-                    }
-                }
-                ::std::task::Poll::Pending
-            })
-            .await
-        };
-        match __out {
-            $crate::task::Sel1::A($p0) => $h0,
         }
     }};
 }
@@ -535,14 +384,55 @@ pub mod shim_tokio {
     //! `#[cfg(simple_dns_verif)] use simrt::shim_tokio as tokio;`
     pub use crate::sim_select as select;
 
-    pub struct JoinHandle<T>(#[allow(dead_code)] crate::thread::JoinHandle<T>);
+    /// `tokio::task::JoinHandle`: awaiting it yields the task's output (through a tokio
+    /// oneshot channel, which drives the simulated executor's wakers), or a `JoinError` when
+    /// the task panicked or was torn down. `abort` is not provided.
+    pub struct JoinHandle<T> {
+        rx: ::tokio::sync::oneshot::Receiver<T>,
+        #[allow(dead_code)]
+        thread: crate::thread::JoinHandle<()>,
+    }
+
+    #[derive(Debug)]
+    pub struct JoinError(());
+    impl JoinError {
+        pub fn is_panic(&self) -> bool {
+            true
+        }
+        pub fn is_cancelled(&self) -> bool {
+            false
+        }
+    }
+    impl std::fmt::Display for JoinError {
+        fn fmt(&self, f: &mut std::fmt::Formatter<'_>) -> std::fmt::Result {
+            write!(f, "task failed")
+        }
+    }
+    impl std::error::Error for JoinError {}
+
+    impl<T> std::future::Future for JoinHandle<T> {
+        type Output = Result<T, JoinError>;
+        fn poll(mut self: std::pin::Pin<&mut Self>, cx: &mut std::task::Context<'_>) -> std::task::Poll<Self::Output> {
+            std::pin::Pin::new(&mut self.rx).poll(cx).map(|r| r.map_err(|_| JoinError(())))
+        }
+    }
+    impl<T> JoinHandle<T> {
+        pub fn is_finished(&self) -> bool {
+            self.thread.is_finished()
+        }
+    }
 
     pub fn spawn<F>(fut: F) -> JoinHandle<F::Output>
     where
         F: std::future::Future + Send + 'static,
         F::Output: Send + 'static,
     {
-        JoinHandle(crate::thread::spawn(move || super::block_on(fut)))
+        let (tx, rx) = ::tokio::sync::oneshot::channel();
+        let thread = crate::thread::spawn(move || {
+            let out = super::block_on(fut);
+            let _ = tx.send(out);
+        });
+        JoinHandle { rx, thread }
     }
 
     pub mod macros {
@@ -766,12 +656,27 @@ pub mod shim_tokio {
         pub struct Interval {
             next: Instant,
             period: Duration,
+            missed: MissedTickBehavior,
         }
         impl Interval {
             pub async fn tick(&mut self) -> Instant {
                 let at = self.next;
                 sleep_until(at).await;
-                self.next = at + self.period;
+                let now = Instant::now();
+                self.next = match self.missed {
+                    // the next tick is one period after the *scheduled* one (catching up)
+                    MissedTickBehavior::Burst => at + self.period,
+                    // one period after this tick actually completed
+                    MissedTickBehavior::Delay => now + self.period,
+                    // the next multiple of the period that is still ahead
+                    MissedTickBehavior::Skip => {
+                        let mut n = at + self.period;
+                        while n <= now {
+                            n = n + self.period;
+                        }
+                        n
+                    }
+                };
                 at
             }
             pub fn period(&self) -> Duration {
@@ -780,10 +685,33 @@ pub mod shim_tokio {
             pub fn reset(&mut self) {
                 self.next = Instant::now() + self.period;
             }
+            pub fn reset_immediately(&mut self) {
+                self.next = Instant::now();
+            }
+            pub fn reset_after(&mut self, after: Duration) {
+                self.next = Instant::now() + after;
+            }
+            pub fn reset_at(&mut self, deadline: Instant) {
+                self.next = deadline;
+            }
+            pub fn missed_tick_behavior(&self) -> MissedTickBehavior {
+                self.missed
+            }
+            pub fn set_missed_tick_behavior(&mut self, b: MissedTickBehavior) {
+                self.missed = b;
+            }
+        }
+
+        #[derive(Clone, Copy, Debug, Default, PartialEq, Eq)]
+        pub enum MissedTickBehavior {
+            #[default]
+            Burst,
+            Delay,
+            Skip,
         }
         pub fn interval_at(start: Instant, period: Duration) -> Interval {
             assert!(period > Duration::ZERO, "`period` must be non-zero.");
-            Interval { next: start, period }
+            Interval { next: start, period, missed: MissedTickBehavior::Burst }
         }
         pub fn interval(period: Duration) -> Interval {
             interval_at(Instant::now(), period)
